@@ -84,6 +84,9 @@ int main(void) {
   { void* p = (void*)0x1234; int e = posix_memalign(&p, 3, 100); if (e != EINVAL) FAIL("posix_memalign_code", "alignment 3: returned %d, expected EINVAL", e);
     e = posix_memalign(&p, 0, 100); if (e != EINVAL) FAIL("posix_memalign_code", "alignment 0: returned %d, expected EINVAL", e);
     e = posix_memalign(&p, sizeof(void*) * 3, 100); if (e != EINVAL) FAIL("posix_memalign_code", "alignment 24: returned %d, expected EINVAL", e);
+    e = posix_memalign(&p, 2, 100); if (e != EINVAL) { FAIL("posix_memalign_code", "alignment 2 (not a multiple of sizeof(void*)): returned %d, expected EINVAL", e); if (e == 0) free(p); }
+    e = posix_memalign(&p, 4, 100); if (e != EINVAL) { FAIL("posix_memalign_code", "alignment 4 (not a multiple of sizeof(void*)): returned %d, expected EINVAL", e); if (e == 0) free(p); }
+    if (p != (void*)0x1234) FAIL("posix_memalign_code", "the output pointer was changed by a failing call");
     int saved = errno = 0; e = posix_memalign(&p, 64, (size_t)PTRDIFF_MAX - 1000); if (e != ENOMEM) FAIL("posix_memalign_code", "huge size: returned %d, expected ENOMEM", e); (void)saved;
     void* q = NULL; e = posix_memalign(&q, 4096, 10); if (e != 0 || !q || ((uintptr_t)q % 4096) != 0 || !p_in_region(q)) FAIL("posix_memalign_result", "e=%d q=%p", e, q); free(q); }
   if (p_reallocarray) { errno = 0; void* q = p_reallocarray(NULL, SIZE_MAX / 2, 4); if (q != NULL) FAIL("reallocarray_overflow", "returned non-NULL"); else if (errno != ENOMEM) FAIL("reallocarray_errno", "errno %d, expected ENOMEM", errno);
